@@ -298,11 +298,11 @@ Proof.
     destruct (queue_found s q) as [qu|] eqn:Ef; [|exact H].
     apply queue_found_get in Ef. pose proof (allq_get _ _ _ _ H Ef) as Hq.
     destruct (fx_excl_owner fx && locked qu c); [exact H|].
-    destruct (find_consumer ch tag); [exact H|].
+    destruct (find_consumer ch _); [exact H|].
     destruct (_ && _)%bool; cbn [fst].
     + apply allq_set_queue; [|exact H]. unfold qinv in *; cbn. tauto.
-    + same_queues. same_queues. apply allq_set_queue; [|exact H].
-      destruct excl; unfold qinv, call_consumers in *; cbn;
+    + destruct (seqb tag ""%string); repeat same_queues; (apply allq_set_queue; [|exact H]);
+        destruct excl; unfold qinv, call_consumers in *; cbn;
         destruct Hq as (A & B & C & D); rewrite ?D; cbn; repeat split; auto.
   - (* MCancel *)
     destruct (find_consumer ch tag); [|exact H]. cbn [fst]. same_queues. apply QI_consumer_stop. exact H.
